@@ -18,10 +18,10 @@ ID = 'C02'
 LEAN_MODULE = 'CC.Properties.C02'
 LEVEL = 'proof'
 THEOREMS = [
-    'CC.C02_component_eq_spec', 'CC.C02_transform_eq_spec_partial', 'CC.C02_transform_eq_spec_counterexample',
+    'CC.C02_component_eq_spec', 'CC.C02_transform_eq_spec',
     'CC.C02_exact', 'CC.C02_rms', 'CC.C02_rms_power', 'CC.C02_dc', 'CC.C02_gate_boundary',
 ]
-OPEN_STATEMENTS = ['CC.C02_transform_eq_spec_statement']
+OPEN_STATEMENTS = []
 ASSUMPTIONS = [
     'np.cos / np.sin / np.sqrt(2) are parameters of the model; the harness passes numpy\'s own values (r2 = np.sqrt(2), r2·r2 = 2 within 1 ulp)',
     'numpy.linalg.solve is a parameter: C02_exact holds for every vector solving the matrix equation; binary64 agrees with field arithmetic within 1e-9 relative on instances with cond(A) < 1e8',
@@ -29,8 +29,7 @@ ASSUMPTIONS = [
     'the interpreter CC/Model/Circuit.lean and the wrappers dcGet / cxGet / cxPower are tied to the code by the cc_transform / cc_solution correspondence only',
 ]
 
-EXACT_PASSIVE = ['resistor', 'impedance', 'capacitor', 'inductance', 'lamp', 'resistive_load']
-UNTRANSLATED = ['conductance', 'admittance']
+EXACT_PASSIVE = ['resistor', 'conductance', 'impedance', 'admittance', 'capacitor', 'inductance', 'lamp', 'resistive_load']
 SOURCES = ['dc_voltage_source', 'ac_voltage_source', 'dc_current_source', 'ac_current_source']
 R2 = float(np.sqrt(2))
 
@@ -57,7 +56,8 @@ def check_case(ctx, out, descs, w, mode, origin):
     comps = [gc.build(d) for d in descs]
     wres = default_wres()
     kinds = sorted({c.type for c in comps})
-    untranslated = '+'.join(sorted({c.type for c in comps if c.type in UNTRANSLATED}))
+    from CircuitCalculator.Circuit import transformers as tr_
+    untranslated = '+'.join(sorted({c.type for c in comps if c.type != 'ground' and c.type not in tr_.transformers}))
     for k in kinds: out.count('kind:' + k)
     out.count('mode:' + mode); out.count('origin:' + origin)
     inp = dict(components=gc.pretty(descs), w=w, mode=mode)
@@ -174,20 +174,20 @@ def frequencies(rng, descs, wres):
     return list(dict.fromkeys(ws))
 
 def run(ctx, out):
-    out.rule = ('connected multigraphs of R / Z / C / L / lamp / load (+ G / Y in a quarter of the cases) with DC and sinusoidal '
+    out.rule = ('connected multigraphs of R / G / Z / Y / C / L / lamp / load with DC and sinusoidal '
                 'sources with and without internal R / G, adversarial node labels and ids, optional ground at a random position; '
                 'values dyadic/small integers (70 %) or decades; amplitudes of either sign, phases in all quadrants; frequencies '
                 '0, every source frequency, dyadic offsets just inside (2^-11) and outside (2^-9) the default resolution, others; '
                 'modes dc / peak / rms; a case is non-trivial when the intended network is well-posed (exact tableau) and the '
                 'reported potentials, voltages, currents equal its exact solution; distinct by (kind set, node count, mode, w = 0)')
+    for descs, w, mode in CORPUS:
+        check_case(ctx, out, descs, w, mode, 'corpus')
     rng = ctx.rng('random')
     n = 160 if ctx.quick else 1500
     for k in range(n):
         if ctx.time_left() < 15: out.notes.append(f'stopped after {k} circuits (budget)'); break
         exact = rng.random() < 0.7
         kinds = list(EXACT_PASSIVE) * 2 + SOURCES
-        if k % 4 == 3:
-            kinds += UNTRANSLATED * 3
         descs = gc.random_circuit(rng, kinds, exact=exact, freqs=[1.0, 2.0, 0.5, 0.0], n_nodes=rng.randint(2, 4),
                                   source_kinds=SOURCES)
         wres = default_wres()
@@ -197,8 +197,6 @@ def run(ctx, out):
         for w in ws:
             for mode in (['dc'] if w == 0 else []) + [rng.choice(['peak', 'rms'])] + ([] if ctx.quick else ['peak', 'rms']):
                 check_case(ctx, out, descs, w, mode, 'random')
-    for descs, w, mode in CORPUS:
-        check_case(ctx, out, descs, w, mode, 'corpus')
 
 CORPUS = [
     # series RLC driven at its source frequency, peak and RMS
@@ -222,11 +220,15 @@ CORPUS = [
       dict(fn='ac_voltage_source', id='V2', nodes=['2', '1'], args=dict(V=3.0, R=0.0, w=4.0, phi=1.0)),
       dict(fn='ac_current_source', id='I3', nodes=['0', '2'], args=dict(I=1.0, G=0.5, w=4.0, phi=0.0)),
       dict(fn='resistor', id='R', nodes=['2', '0'], args=dict(R=2.0))], 1.0, 'peak'),
-    # a conductance in parallel (known finding of C07: dropped)
+    # a conductance / an admittance in parallel (dropped before fix ac3e686)
     ([dict(fn='ground', id='gnd', nodes=['0'], args={}),
       dict(fn='dc_current_source', id='I', nodes=['0', '1'], args=dict(I=1.0, G=0.0)),
       dict(fn='conductance', id='G', nodes=['1', '0'], args=dict(G=2.0)),
       dict(fn='resistor', id='R', nodes=['1', '0'], args=dict(R=1.0))], 0.0, 'dc'),
+    ([dict(fn='ground', id='gnd', nodes=['0'], args={}),
+      dict(fn='ac_current_source', id='I', nodes=['0', '1'], args=dict(I=1.0, G=0.0, w=2.0, phi=0.5)),
+      dict(fn='admittance', id='Y', nodes=['1', '0'], args=dict(Y=complex(2.0, -1.0))),
+      dict(fn='capacitor', id='C', nodes=['1', '0'], args=dict(C=1.0))], 2.0, 'rms'),
 ]
 
 def replay(ctx, out, rp):
